@@ -121,6 +121,7 @@ class Registry:
         self.replay: dict[str, Callable] = {}
         self.witness_classes: dict[str, Callable] = {}
         self.modules_loaded: set[str] = set()
+        self.exec_hooks: dict[str, Callable] = {}  # executor hooks contributed by contract modules
 
     def load(self, *modules: str) -> "Registry":
         """Load sidecar contract modules (idempotent)."""
